@@ -89,17 +89,17 @@ Definition xemit (c : caps) (g : xcfg) (a : xans) (s : xst) : list xev :=
        else (if x_best a then raise_evs p0 ++ (if x_regen1 a then [] else [VReg1Fail]) else []) ++
             (if x_regen a then [] else VRegRaise :: raise_evs (if x_best a then MpP else p0)) ++
             (if x_stop2 a then [VStop] else []))
-  | X_cleanup => VCleanup :: (if negb (xin_prec g =? 0) && negb (is_mp (xlast s)) then [VSwitch; VRaise] else [])
+  | X_cleanup => VCleanup :: (if negb (xin_prec g =? 0) && negb (is_mp (xlast s)) && can_improve g then [VSwitch; VRaise] else [])
   | X_improve cur => if x_allapprox a then [] else [VImp cur]
   | X_return => []
   end.
 
 Definition xans0 : xans :=
-  {| x_err := false; x_whichd := false; x_fpe := false; x_pre := false; x_back := false; x_regen1 := true; x_regen := true;
+  {| x_err := false; x_whichd := false; x_lc0 := false; x_fpe := false; x_pre := false; x_back := false; x_regen1 := true; x_regen := true;
      x_stop := false; x_best := false; x_stop2 := false; x_allapprox := false |}.
 
 Definition mkx (e wd fpe pre back r1 r stop best stop2 allap : bool) : xans :=
-  {| x_err := e; x_whichd := wd; x_fpe := fpe; x_pre := pre; x_back := back; x_regen1 := r1; x_regen := r;
+  {| x_err := e; x_whichd := wd; x_lc0 := false; x_fpe := fpe; x_pre := pre; x_back := back; x_regen1 := r1; x_regen := r;
      x_stop := stop; x_best := best; x_stop2 := stop2; x_allapprox := allap |}.
 
 Definition skip_raise (evs : list xev) : list xev :=
@@ -125,10 +125,19 @@ Definition loop_guide (fpe : bool) (r : list xev) : xans :=
 
 Definition xguide (c : caps) (g : xcfg) (s : xst) (evs : list xev) : xans :=
   match xpc_ s with
-  | X_start => match evs with
-               | VCd d :: _ => mkx false d false false false true true false false false false
-               | _ => mkx true false false false false true true false false false false
-               end
+  | X_start =>
+      let with_lc0 (a : xans) (b : bool) : xans :=
+        {| x_err := x_err a; x_whichd := x_whichd a; x_lc0 := b; x_fpe := x_fpe a; x_pre := x_pre a; x_back := x_back a;
+           x_regen1 := x_regen1 a; x_regen := x_regen a; x_stop := x_stop a; x_best := x_best a; x_stop2 := x_stop2 a;
+           x_allapprox := x_allapprox a |} in
+      let no_pre (r : list xev) : bool := match r with VPre :: _ => false | _ => true end in
+      match start_phase g with
+      | NoPhase => match evs with
+                   | VCd d :: r => with_lc0 (mkx false d false false false true true false false false false) (no_pre r)
+                   | _ => mkx true false false false false true true false false false false
+                   end
+      | _ => with_lc0 xans0 (no_pre evs)
+      end
   | X_prelim _ => match evs with
                   | VPre :: VCleanErr :: _ => mkx true false false false false true true false false false false
                   | VPre :: VPreFpe :: _ => mkx false false true false false true true false false false false
